@@ -562,6 +562,55 @@ def rope_eq(x, y):
         if ky == 'view' and core.prove(cy[2] == cy[3]):
             adv_y()
             continue
+        # a provably non-empty view against a byte-valued piece (field, short literal): compare the first byte
+        # through the blob's content array and go on with the rest of the view
+        if (kx == 'view' and ky in ('fld', 'lit')) or (ky == 'view' and kx in ('fld', 'lit')):
+            vw, ot = (cx, cy) if kx == 'view' else (cy, cx)
+            if ot[0] == 'fld' and (ot[2] > 1 or ot[3]) and ot[2] <= 8:
+                bs = split_fld(ot)
+                if kx == 'view':
+                    py[j:j + 1] = bs
+                    cy = py[j]
+                else:
+                    px[i:i + 1] = bs
+                    cx = px[i]
+                continue
+            small = (ot[0] == 'fld' and ot[2] == 1) or (ot[0] == 'lit' and 0 < _len(ot[1]) <= 16)
+            if small and core.prove(vw[2] < vw[3]):
+                b = vw[1].byte(z3.simplify(vw[2]))
+                if ot[0] == 'fld':
+                    conds.append(mkbool(b == ot[1]))
+                    orest = None
+                else:
+                    conds.append(mkbool(b == z3.IntVal(ot[1][0])))
+                    orest = ('lit', ot[1][1:]) if _len(ot[1]) > 1 else None
+                vrest = ('view', vw[1], z3.simplify(vw[2] + 1), vw[3])
+                if core.prove(vrest[2] == vrest[3]):
+                    vrest = None
+                if kx == 'view':
+                    if vrest is None:
+                        adv_x()
+                    else:
+                        cx = vrest
+                    if orest is None:
+                        adv_y()
+                    else:
+                        cy = orest
+                else:
+                    if vrest is None:
+                        adv_y()
+                    else:
+                        cy = vrest
+                    if orest is None:
+                        adv_x()
+                    else:
+                        cx = orest
+                continue
+        # the rest is opaque: equality of the whole is the conditions collected so far (each a necessary
+        # condition) and a free Boolean for the remainders
+        if _len(conds) > 1:
+            rx, ry = mk([cx] + px[i + 1:]), mk([cy] + py[j + 1:])
+            return core.And(*(conds + [_opaque_eq(rx, ry, sx_len(rx) == sx_len(ry))]))
         return _opaque_eq(x, y, leq)
     # leftovers must be empty
     for rest in ([cx] + px[i + 1:] if cx is not None else []) + ([cy] + py[j + 1:] if cy is not None else []):
